@@ -4,7 +4,7 @@
    (corpus/C19/ex-*.case). *)
 From GoCar Require Import Bytes Varint Cid Header Frame V2Header Scan Index Store CliCmds.
 From GoCarProofs Require Import BytesFacts VarintFacts CidFacts HeaderFacts ScanFacts ScanTrunc ScanTruncV2 StoreInv
-  CliBase CliWalk CliProducers CliConcat CliFilter CliClosure CliTheorems CliGet CliAppend.
+  CliBase CliWalk CliProducers CliConcat CliFilter CliClosure CliTheorems CliGet CliAppend CliIndexFacts CliFull.
 
 Definition hok_true : bytes -> bytes -> option bool := fun _ _ => Some true.
 
@@ -313,6 +313,74 @@ Example ex_get_block_absent :
 Proof.
   apply (get_block_generated_absent hok_true dec_header_canon dec_header_pragma ex_hb ex_roots ex_bs ex_v2 _
            (mkcid 1 85 18 (x00 :: tl dg_bc)) ex_hdr_ok ex_blocks_ok ex_indexable ex_no_index); vm_compute; reflexivity.
+Qed.
+
+(* ---- round 2: the full theorems (guards discharged) on the same instance ------------------------------------ *)
+Example ex_full_verify_index :
+  exists out, index_car dec_header_canon 0 2 ex_v2 = (true, Some out) /\ verify_car hok_true dec_header_canon out = Ok tt.
+Proof.
+  apply (closed_verify_index hok_true dec_header_canon dec_header_pragma ex_hb ex_roots ex_bs ex_v2 0 codec_mh_sorted (IdxMh [])
+           ex_hdr_ok ex_reencode ex_blocks_ok ex_valid_v2 eq_refl eq_refl ex_hashes_ok).
+  - discriminate.
+  - vm_compute. reflexivity.
+  - nlt.
+  - intros _. nlt.
+Qed.
+
+Example ex_full_verify_filter_v2 :
+  exists out, filter_car hok_true dec_header_canon ex_sel false 2 false ex_v1 None = (true, Some out) /\
+    verify_car hok_true dec_header_canon out = Ok tt.
+Proof.
+  apply (closed_verify_filter_v2 hok_true dec_header_canon dec_header_pragma ex_sel false ex_hb ex_roots ex_bs ex_v1 None
+           ex_hdr_ok ex_blocks_ok ex_hashes_ok ex_indexable ex_valid_v1 ex_filter_hdr_ok ex_filter_v2_size).
+  - vm_compute. discriminate.
+  - vm_compute. reflexivity.
+  - nlt.
+Qed.
+
+Example ex_full_get_block_present :
+  exists c d, In (c, d) ex_bs /\ same_mh c kc2 = true /\ get_block dec_header_canon ex_v2 kc2 = Ok d.
+Proof.
+  apply (get_block_present hok_true dec_header_canon dec_header_pragma ex_hb ex_roots ex_bs ex_v2 kc2 xp2
+           ex_hdr_ok ex_blocks_ok ex_indexable ex_no_index); vm_compute; reflexivity.
+Qed.
+
+Example ex_full_get_block_absent :
+  get_block dec_header_canon ex_v2 (cid_enc (mkcid 1 85 18 (x00 :: tl dg_bc))) = Err ENotFound.
+Proof.
+  apply (get_block_absent hok_true dec_header_canon dec_header_pragma ex_hb ex_roots ex_bs ex_v2 _
+           (mkcid 1 85 18 (x00 :: tl dg_bc)) ex_hdr_ok ex_blocks_ok ex_indexable ex_no_index); vm_compute; reflexivity.
+Qed.
+
+(* get-block on what `car index --codec car-index-sorted` wrote for the archive (digest-only index) *)
+Example ex_full_get_block_own_index :
+  exists c d, In (c, d) ex_bs /\ same_mh c kc2 = true /\
+    get_block dec_header_canon
+      (v2file 0 0 0 (51 + 0 + blen ex_v1 + 0) ex_v1
+              (zerosN 0 ++ idx_write (idx_load (regen_records_hb ex_hb ex_bs) (IdxSorted [])) ++ [])) kc2 = Ok d.
+Proof.
+  apply (get_block_own_index_present hok_true dec_header_canon dec_header_pragma ex_hb ex_roots ex_bs 0 0 0 0
+           (regen_records_hb ex_hb ex_bs) (IdxSorted []) [] ex_hdr_ok ex_blocks_ok) with (kp := xp2);
+    try nlt; try (vm_compute; reflexivity); try (left; reflexivity); try apply regen_describes;
+    try apply length_regen; try exact I.
+Qed.
+
+Example ex_full_detach_list :
+  exists ibytes l,
+    index_create dec_header_canon 0 ex_v2 = (true, Some ibytes) /\
+    detach_list ibytes = (true, l) /\
+    Permutation.Permutation l (map (fun r => (mh_enc (r_code r) (r_digest r), r_off r)) (regen_records_hb ex_hb ex_bs)).
+Proof.
+  apply (detach_list_of_index_create hok_true dec_header_canon dec_header_pragma ex_hb ex_roots ex_bs ex_v2 0
+           ex_hdr_ok ex_blocks_ok ex_indexable ex_valid_v2 eq_refl); nlt.
+Qed.
+
+Example ex_inspect_quick :
+  inspect_car hok_true dec_header_canon false ex_v2
+  = Ok (mkis 2 (mkv2 0 0 (51 + 7) (blen ex_v1) 0) ex_roots (map isec_of ex_bs) 0 (blen ex_v1)).
+Proof.
+  apply (inspect_quick_v2_indexless hok_true dec_header_canon dec_header_pragma ex_hb ex_roots ex_bs 0 0 7 []
+           ex_hdr_ok ex_blocks_ok); nlt.
 Qed.
 
 (* ---- the same bytes as the replayed corpus case ---------------------------------------------------- *)
